@@ -499,6 +499,10 @@ class FuncAnalysis:
     for pre in ('numpy.',):
       if short.startswith(pre):
         short = 'np.' + short[len(pre):]
+    if short == 'next' and argvals:
+      # advancing an iterator / counter changes it: a module-level one is ambient state
+      self.mutate(argvals[0], (), c, 'next(...)')
+      return read(argvals[0], '*')
     if short in FRESH_FUNCS:
       return frozenset()
     if short in PARSER_FUNCS or short.endswith('.read_model_from_bytearray'):
